@@ -500,6 +500,9 @@ def run_stream(ctx, corr):
             for _ in range(ctx.size(40, 400)):
                 m, what = mutate(rng, b, tagnames)
                 docs.append((f"{os.path.basename(f)}: {what}", m, -1, None))
+        # the numeric-leaf oracle does not need the translator: a broken tie still gets its failing input
+        files0 = sorted(_glob.glob(str(ctx.repo / "tests" / "gama-g3" / "input" / "*.xml")))
+        docs += numeric_leaf_docs(ctx, corr, rng, [f for f in files0 if not f.endswith("-adj.xml")])
         run_docs(ctx, corr, exe, docs, "dp_events")
         return
     reached, names = explore_cached(ctx, corr, exe, A)
